@@ -108,6 +108,85 @@ def _disjuncts(e):
     return [e]
 
 
+def _compare_view(f, subst=False):
+    """the method with its checks in one canonical form: `if <c>: raise AssertionError(...)` becomes `assert not <c>`, and locals
+    that are assigned once (hoisted sub-expressions such as `orig_port = orig_pin.port`) are substituted into the asserted tests"""
+    import copy
+    from ..core import FuncInfo, copy_tree
+    node = copy_tree(f.node)
+    changed = False
+
+    class T(ast.NodeTransformer):
+        def visit_If(self, n):
+            self.generic_visit(n)
+            if not n.orelse and len(n.body) == 1 and isinstance(n.body[0], ast.Raise) and n.body[0].exc is not None \
+                    and norm(n.body[0].exc.func if isinstance(n.body[0].exc, ast.Call) else n.body[0].exc) == "AssertionError":
+                t = n.test
+                test = t.operand if isinstance(t, ast.UnaryOp) and isinstance(t.op, ast.Not) else ast.UnaryOp(op=ast.Not(), operand=t)
+                a = ast.Assert(test=test, msg=None)
+                nonlocal changed
+                changed = True
+                return ast.copy_location(a, n)
+            return n
+    node = T().visit(node)
+    counts = {}
+    for a in ast.walk(node):
+        if isinstance(a, ast.Name) and isinstance(a.ctx, ast.Store):
+            counts[a.id] = counts.get(a.id, 0) + 1
+        if isinstance(a, (ast.For, ast.comprehension)):
+            for x in ast.walk(a.target):
+                if isinstance(x, ast.Name):
+                    counts[x.id] = counts.get(x.id, 0) + 5
+    defs = {}
+    for a in ast.walk(node):
+        if isinstance(a, ast.Assign) and len(a.targets) == 1 and isinstance(a.targets[0], ast.Name) and counts.get(a.targets[0].id) == 1 \
+                and not isinstance(a.value, (ast.Constant, ast.List, ast.Dict, ast.Set)) and not (isinstance(a.value, ast.Call) and norm(a.value.func) == "next"):
+            defs[a.targets[0].id] = a.value
+
+    class S(ast.NodeTransformer):
+        depth = 0
+
+        def visit_Name(self, n):
+            if isinstance(n.ctx, ast.Load) and n.id in defs and S.depth < 4:
+                nonlocal changed
+                changed = True
+                S.depth += 1
+                try:
+                    return ast.copy_location(S().visit(copy_tree(defs[n.id])), n)
+                finally:
+                    S.depth -= 1
+            return n
+    if subst:
+        for a in ast.walk(node):
+            if isinstance(a, ast.Assert):
+                a.test = S().visit(a.test)
+    if not changed:
+        return f
+    ast.fix_missing_locations(node)
+    for parent in ast.walk(node):
+        for child in ast.iter_child_nodes(parent):
+            child._parent = parent
+    node._parent = getattr(f.node, "_parent", None)
+    return FuncInfo(f.name, f.qualname, f.module, f.cls, node, f.role, f.prop)
+
+
+def _found_in(f, two_sided):
+    """the quantities a method compares across the two sides (erased access paths), without reporting anything"""
+    S = Sides(f)
+    found = set()
+    for a in walk_local(f.node):
+        if isinstance(a, ast.Assert):
+            for cmp_ in [x for x in ast.walk(a.test) if isinstance(x, ast.Compare) and len(x.ops) == 1]:
+                l, r = cmp_.left, cmp_.comparators[0]
+                if isinstance(cmp_.ops[0], (ast.Eq, ast.NotEq, ast.Is, ast.IsNot)) and {S.of(l), S.of(r)} == {"O", "C"} and S.erase(l) == S.erase(r):
+                    found.add(S.erase(l))
+    for c in walk_local(f.node):
+        if isinstance(c, ast.Call) and isinstance(c.func, ast.Attribute) and norm(c.func.value) == "self" and c.func.attr in two_sided and len(c.args) >= 2:
+            if (S.of(c.args[0]), S.of(c.args[1])) == ("O", "C") and S.erase(c.args[0]) == S.erase(c.args[1]):
+                found.add("call:%s(%s)" % (c.func.attr, S.erase(c.args[0])))
+    return found
+
+
 def _k6(ctx, R, cc):
     """the counterpart of an element is looked up inside the counterpart of the element's container: in a loop over
     `<orig container>.<relation>` the lookup root is the copy-side container of the same level (the copy-side parameter when the
@@ -174,6 +253,8 @@ def check_c20(ctx, R):
     for mname, f in sorted(cc.methods.items()):
         if mname in ("__init__", "run", "get_identifier", "get_original_identifier"):
             continue
+        f0 = f
+        f = _compare_view(f0)
         S = Sides(f)
         found = set()
         for a in walk_local(f.node):
@@ -237,6 +318,8 @@ def check_c20(ctx, R):
                 elif (s1, s2) == ("O", "C"):
                     R.bad("K1", "%s|mismatch-call|%s" % (f.key, c.func.attr), f.loc(c), "%s calls `%s` on different quantities (%s vs %s)" % (mname, short(c, 70), e1, e2))
         # K2
+        if any(req not in found for req in REQUIRED.get(mname, [])):
+            found |= _found_in(_compare_view(f0, subst=True), two_sided)  # the same quantity through hoisted locals
         for req in REQUIRED.get(mname, []):
             if req in found:
                 R.ok("K2", "%s compares %s" % (mname, req), f.loc())
